@@ -242,7 +242,7 @@ def literal_frames(ctx) -> None:
 def run(ctx) -> None:
     literal_frames(ctx)
     enumerate_lengths(ctx)
-    parallel(ctx, _shard, [(ctx.n(400, 12000),)] * ctx.n(8, 16))
+    parallel(ctx, _shard, [(ctx.n(400, 8000),)] * ctx.n(8, 16))
 
 
 def replay(ctx, case) -> None:
